@@ -464,6 +464,29 @@ class Gen:
             yield "frame", "t/" + self.fresh(), [(w + "[][]", "f")], "whitelist-list-list"
             yield "ctor", "t/" + self.fresh(), [(w.upper() if w.upper() != w else w.lower(), "f")], "whitelist-case"
             yield "ctor", "t/" + self.fresh(), [(w[:-1], "f")], "whitelist-prefix"
+        # 4b. the validity decision is per field, for ALL fields: a keyword-named field next to an invalid / reserved /
+        #     underscore name, at every position, every route
+        bad_names = self.impl.reserved + ["_x", "__", "a-b", "a b", "\u00e9", "1a", "", "x\n", "a.b"]
+        for kw in ("from", "class", "is", "None", "import"):
+            for bad in bad_names:
+                for n in (2, 3):
+                    for i in range(n):
+                        for j in range(n):
+                            if i == j:
+                                continue
+                            fs = [("string", "g%d" % q) for q in range(n)]
+                            fs[i] = ("string", kw)
+                            fs[j] = ("varint", bad)
+                            for route in ROUTES:
+                                yield route, "t/" + self.fresh(), fs, "keyword-next-to-invalid"
+        # 4c. EXHAUSTIVE: every list of at most 3 field names over {valid, keyword, reserved, underscore, invalid,
+        #     trailing newline}: accepted only if every single name is valid
+        name_alpha = ["a", "from", "_generated", "_x", "a-b", "b\n"]
+        for n in (1, 2, 3):
+            for combo in itertools.product(name_alpha, repeat=n):
+                fs = [("string", x) for x in combo]
+                for route in ROUTES:
+                    yield route, "t/" + self.fresh(), fs, "exhaustive-field-lists"
         # 5b. namespace prefixes of the whitelist tree (after every whitelisted module has been imported above)
         for pfx in whitelist_prefixes(self.impl.whitelist):
             for route in ROUTES:
@@ -508,6 +531,8 @@ class Gen:
                     fn = rnd.choice(kws)
                 elif r < 0.2 and fields:
                     fn = rnd.choice(fields)[1]
+                elif r < 0.24:
+                    fn = rnd.choice(self.impl.reserved + ["_x", "_"])
                 fields.append((ft, fn))
             yield route, name + ("" if rnd.random() < 0.5 else "/" + self.fresh()), fields, "random"
 
@@ -842,7 +867,8 @@ def run(ctx):
         "definition: every symbol of a %d-symbol hostile alphabet (ASCII punctuation, NUL, CR, LF, tab, quotes, unicode "
         "look-alikes and separators, a lone surrogate) x {prefix, middle, suffix} x {type name, field name, field type} x 4 "
         "routes; injection payloads per template position carrying a tripwire; the trailing-newline residual at every "
-        "position; all Python keywords as field and type names; template identifiers; reserved and underscore names; every "
+        "position; a keyword-named field next to an invalid / reserved / underscore name at every position; EXHAUSTIVELY every "
+        "list of <= 3 field names over {valid, keyword, reserved, underscore, invalid, trailing newline}; all Python keywords as field and type names; template identifiers; reserved and underscore names; every "
         "whitelist entry plain / list / list-of-list / wrong case; duplicates; 10^4-character names; seeded random mostly-"
         "valid definitions with hostile edits; malformed (non-string) definitions; Avro schemas without embedded "
         "definition; plus EXHAUSTIVELY all %d strings of length <= 4 (thorough: 5) over a 10-symbol class-representative alphabet "
